@@ -28,7 +28,8 @@ RULE = ("cases = random TypeSpec (as C01, incl. abstract origins, data classes, 
         "of C04 talk about failures); distinct = (spec shape, route, option set, input class, outcome class). 4% of the cases: a "
         "union of data classes selected by Field(discriminator=...) with any value under the discriminator key; 3%: one of the "
         "ready-made constrained classes of utype.types (Timestamp, EmailStr, Year ...; several carry pre_validate / post_validate "
-        "hooks) called directly with hostile values and temporal extremes (datetime.min / max, timedelta.max ...).")
+        "hooks) called directly with hostile values and temporal extremes (datetime.min / max, timedelta.max ...); 3%: temporal targets "
+        "given huge finite Decimals while the ambient decimal context does not trap Overflow (decimal.ExtendedContext).")
 ASSUMPTIONS = [
     "top-level data-class inputs whose keys are not strings are outside the statement (TypeError 'keywords must be strings' is exempt unless cast_keyword_str)",
     "a step budget separates 'loops' from 'long': exhaustion is confirmed at 10x budget and requires a <=12-line loop signature in the last 1e5 events",
@@ -128,9 +129,28 @@ def make_stock_case(rng):
     return {"fam": "stock", "name": name, "opts": {}, "inputs": inputs, "rng": rng, "spec": ("leaf", "int"), "route": "stock"}
 
 
+def make_ambient_case(rng):
+    """temporal targets parsed while the caller's decimal context does not trap Overflow (the stdlib's stock ExtendedContext):
+    arithmetic on a huge finite Decimal then yields Infinity instead of raising"""
+    from decimal import Decimal
+    leaf = ("leaf", rng.choice(["datetime", "datetime", "date", "timedelta", "time"]))
+    spec = rng.choice([leaf, leaf, ("opt", leaf), ("gen", "list", (leaf,))])
+    huge = [Decimal("1E+1000003"), Decimal("-1E+1000003"), Decimal("9.9E+999999"), Decimal("1E-1000003"), Decimal("1E+400"), Decimal("12345678901234567890.5")]
+    inputs = []
+    for _ in range(12):
+        if rng.random() < 0.5:
+            inputs.append(lambda v=rng.choice(huge): v)
+        else:
+            inputs.append(V.pick(rng, leaf[1])[1])
+    return {"spec": spec, "opts": dict(rng.choice(OPTS)), "route": rng.choice(["tt", "call", "field", "param", "dcfield"]), "inputs": inputs, "rng": rng,
+            "ambient": True}
+
+
 def make_case(i, rng, tier):
     if rng.random() < 0.04:
         return make_disc_case(rng)
+    if rng.random() < 0.03:
+        return make_ambient_case(rng)
     if rng.random() < 0.03:
         return make_stock_case(rng)
     depth = rng.choice([0, 1, 2, 2, 3]) if tier == "quick" else rng.choice([0, 1, 2, 2, 3, 3, 4])
@@ -212,7 +232,16 @@ def run_case(case, ctx):
                 continue
             xr = short(x, 120)
             xc = TS.value_class(x)
-            out = run(lambda: entry(x), steps=steps, limit=STEP_LIMIT)
+            if case.get("ambient"):
+                import decimal
+                ctx.count("calls_under_a_non_trapping_decimal_context")
+
+                def call(v):
+                    with decimal.localcontext(decimal.ExtendedContext):
+                        return entry(v)
+            else:
+                call = entry
+            out = run(lambda: call(x), steps=steps, limit=STEP_LIMIT)
             ctx.count("calls")
             if out.kind != "steps" and steps.count > ctx.counters.get("max:steps", 0):
                 ctx.counters["max:steps"] = steps.count
@@ -230,7 +259,7 @@ def run_case(case, ctx):
                     x2 = mk()
                 except Exception:
                     x2 = x
-                out2 = run(lambda: entry(x2), steps=steps, limit=STEP_LIMIT * 10, tail=100_000)
+                out2 = run(lambda: call(x2), steps=steps, limit=STEP_LIMIT * 10, tail=100_000)
                 if out2.kind == "steps":
                     loop = steps.loop_signature()
                     if len(loop) <= 12:
